@@ -152,13 +152,28 @@ def project_runs(logs: List[Tuple[str, List[Dict[str, Any]]]]) -> List[Dict[str,
             elif e["ev"] == "integrate":
                 cur["ran"] = True
                 cur["post"] = snap(e["snap"])
+            elif e["ev"] == "flat":
+                run["flat"] = {"cfg": e["cfg"], "list": [dict(x, r=[sp(k) for k in x["r"]], p=[sp(k) for k in x["p"]]) for x in e["list"]]}
         if run["init"] is None:
             raise core.MachineryError("build never initialised its pool")
         runs.append(run)
     return runs
 
 
-def record_build(rules: List[Any], seeds: List[str], *, parallel: bool, workers: Optional[int], scripted: bool = False, **kw):
+def flatten(crn, *, skip_no_change=True, allow_empty_side=False, deduplicate=True) -> Dict[str, Any]:
+    """ReactionDeltaFlattener on the finished network, with species as their keys (raw; ranked by project_runs callers)"""
+    from synkit.CRN.DAG.syncrn import ReactionDeltaFlattener
+    g = crn.graph
+    key_of = {d["smiles"]: d["smiles_nomap"] for _, d in g.nodes(data=True) if d.get("kind") == "species"}
+    ids = {n: i + 1 for i, n in enumerate(g.nodes())}
+    fl = ReactionDeltaFlattener(graph=g, skip_no_change=skip_no_change, allow_empty_side=allow_empty_side, deduplicate=deduplicate).build()
+    return {"cfg": {"skipNoChange": bool(skip_no_change), "allowEmpty": bool(allow_empty_side), "deduplicate": bool(deduplicate)},
+            "list": [{"id": ids[r["rxn_id"]], "step": int(r["step"]), "rule": int(r["rule_index"]) + 1, "app": int(r["app_index"]),
+                      "r": [key_of[x] for x in r["reactants"]], "p": [key_of[x] for x in r["products"]]} for r in fl.reactions]}
+
+
+def record_build(rules: List[Any], seeds: List[str], *, parallel: bool, workers: Optional[int], scripted: bool = False,
+                 flat: Optional[Dict[str, Any]] = None, **kw):
     """One build of a recording SynCRN; returns (crn, log)."""
     import synkit.CRN.DAG.syncrn as mod
     Rec = make_recorder()
@@ -170,6 +185,8 @@ def record_build(rules: List[Any], seeds: List[str], *, parallel: bool, workers:
         crn.build(list(seeds), parallel=parallel, max_workers=workers)
     finally:
         mod._apply_rule_worker = orig
+    if flat is not None:
+        crn.log.append(dict(flatten(crn, **flat), ev="flat"))
     return crn, crn.log
 
 
@@ -189,7 +206,7 @@ def replay_behaviour(beh: Dict[str, Any], cfg: Dict[str, Any], modes=(("serial",
               dedup_delta=cfg["dedupDelta"], dedup_across_rules=cfg["dedupAcross"], keep_aam=False)
     logs = []
     for mode, par, w in modes:
-        _, log = record_build(rules, seeds, parallel=par, workers=w, scripted=True, **kw)
+        _, log = record_build(rules, seeds, parallel=par, workers=w, scripted=True, flat=beh.get("flat"), **kw)
         logs.append((mode, log))
     runs = project_runs_fixed(logs)
     return {"cfg": cfg, "runs": runs, "expect": {"pool": beh["pool"], "nodes": beh["nodes"], "edges": beh["edges"], "nseen": beh["nseen"]}}
@@ -232,7 +249,10 @@ def _remap(runs, remap):
                 "seen": [[t[0], [remap[k] for k in t[1]]] for t in s["seen"]]}
     out = []
     for r in runs:
-        out.append({"mode": r["mode"], "seeds": [remap[k] for k in r["seeds"]], "init": snap(r["init"]),
+        extra = {}
+        if "flat" in r:
+            extra["flat"] = {"cfg": r["flat"]["cfg"], "list": [dict(x, r=[remap[k] for k in x["r"]], p=[remap[k] for k in x["p"]]) for x in r["flat"]["list"]]}
+        out.append({**extra, "mode": r["mode"], "seeds": [remap[k] for k in r["seeds"]], "init": snap(r["init"]),
                     "steps": [{"tasks": [[t[0], [remap[k] for k in t[1]]] for t in s["tasks"]], "seen": [[t[0], [remap[k] for k in t[1]]] for t in s["seen"]],
                                "ran": s["ran"], "results": [{"r": x["r"], "mix": [remap[k] for k in x["mix"]], "prods": [[remap[k] for k in pm] for pm in x["prods"]]} for x in s["results"]],
                                "post": snap(s["post"])} for s in r["steps"]]})
